@@ -92,8 +92,13 @@ def ncf2lateral_boundary(ncffile, outpath):
         time_hdr['iedate'] = date_e % (date_e // 100000 * 100000)
         time_hdr['etime'] = time_e.astype('>f') / 10000.
     else:
+        # as in the uamiv writer: the step length when the file has one
+        if hasattr(ncffile, 'TSTEP'):
+            tincr = ncffile.TSTEP / 10000
+        else:
+            tincr = 1.
         time_hdr['iedate'] = date
-        time_hdr['etime'] = time + 1.
+        time_hdr['etime'] = time + tincr
         time_hdr['iedate'] += (time_hdr['etime'] // 24).astype('i')
         time_hdr['etime'] -= (time_hdr['etime'] // 24) * 24
         # roll YYJJJ into the next year past day 365/366
